@@ -12,6 +12,8 @@ that the symbolic executor agrees with CPython on the outcome.
 """
 from __future__ import annotations
 
+import os
+
 import contextlib
 import hashlib
 import sys
@@ -271,7 +273,12 @@ class NativeCtx:
         self._patches = []
 
 
-def _tracer_factory(ctx, prefix="/repo/src/dpapi_ng"):
+def _tracer_factory(ctx, prefix=None):
+    if prefix is None:
+        import dpapi_ng
+
+        prefix = os.path.dirname(os.path.abspath(dpapi_ng.__file__))
+
     def tracer(frame, event, arg):
         if not frame.f_code.co_filename.startswith(prefix):
             return None
